@@ -539,10 +539,9 @@ def work(unit):
         else:
             states.add(key[0])
             states |= v
-    p['extra']['shared_state_snapshots_taken'] = sum(len(v) for kk, v in graph.items() if kk[0] != 'doc-dependence')
     p['extra']['shared_state_edges_determined_by_document'] = doc_dependent
-    p['extra']['max_distinct_shared_states_in_a_unit'] = 0
-    p['shared_states'] = sorted(states)
+    p['sets']['shared_grammar_states'] = {x for x in states if x}
+    p['sets']['shared_grammar_edges'] = {(k[0], k[1], s) for k, v in graph.items() if k[0] != 'doc-dependence' for s in v}
     return p
 
 
